@@ -1096,6 +1096,7 @@ package collection
 
 //@ define valof(s, k) := aval(s[kwit(s, k)])
 //@ define allfresh(s) := forall i :: 0 <= i && i < len(s) ==> fresh(s[i])
+//@ define allallocated(s) := forall i :: 0 <= i && i < len(s) ==> allocated(s[i])
 //@ define nonnil(s) := forall i :: 0 <= i && i < len(s) ==> s[i] != nil
 // heap well-formedness: the elements of a sequence that exists at entry exist at entry
 //@ define allallocated(s) := forall i :: 0 <= i && i < len(s) ==> allocated(s[i])
@@ -1343,12 +1344,21 @@ package collection
 
 // ---------------------------------------------------------------- queue as seen by sequential clients (parser)
 
+// thread-local histories: got(q) = the values this thread removed from q, put(q) = the values it added, in order
+// (facts about what the thread itself did: they hold under any interference)
+//@ model got SeqU
+//@ model put SeqU
+//@ model qclosed Bool
+//@ model wgcount Int
 // nonnilq(q): every value ever added to q is non-nil (a property of the producer, used by the CDCN parser)
 //@ declare nonnilq(U) Bool
 //@ iface QueueLike.RemoveHead
 //@   nopanic
-//@   modifies view(this)
+//@   mayblock
+//@   modifies view(this), got(this)
 //@   ensures result.1 && nonnilq(this) ==> result.0 != nil
+//@   ensures result.1 ==> got(this) == old(got(this)) ++ single(result.0)
+//@   ensures !result.1 ==> got(this) == old(got(this))
 
 //@ iface QueueClassLike.MakeWithCapacity
 //@   nopanic
@@ -1364,8 +1374,9 @@ package collection
 //@   nopanic
 //@   mayblock
 //@   requires[C05] localfresh(this) ==> len(view(this)) < capacity(this)
-//@   modifies view(this)
-//@   ensures view(this) == old(view(this)) ++ single(value)
+//@   modifies view(this), put(this)
+//@   ensures localfresh(this) ==> view(this) == old(view(this)) ++ single(value)
+//@   ensures put(this) == old(put(this)) ++ single(value)
 
 // parsedval(source): the value ParseSource returns for a source text (a function of the text only: C10/C11)
 //@ declare parsedval(Str) U
@@ -1441,7 +1452,9 @@ package collection
 //@   modifies view(this)
 //@   ensures view(this) == empty()
 //@ iface QueueLike.CloseQueue
-//@   modifies view(this)
+//@   modifies view(this), qclosed(this)
+//@   ensures qclosed(this)
+//@   xensures old(qclosed(this))
 //@ iface QueueLike.GetSize
 //@   nopanic
 //@   ensures result == len(view(this))
@@ -1505,3 +1518,172 @@ package collection
 //@   requires !held(qmutex(this))
 //@   modifies held(qmutex(this))
 //@   ensures[C04,C17] !held(qmutex(this)) && fresh(result) && result != nil && snap(result) == view(this) && pos(result) == 0
+
+// ---------------------------------------------------------------- Fork / Split / Join (C06)
+
+//@ iface Synchronized.Add
+//@   nopanic
+//@   modifies wgcount(this)
+//@   ensures wgcount(this) == old(wgcount(this)) + delta
+//@ iface Synchronized.Done
+//@   nopanic
+//@   modifies wgcount(this)
+//@   ensures wgcount(this) == old(wgcount(this)) - 1
+
+//@ define delivered(q) := got(q)[len(old(got(q))) : len(got(q))]
+
+//@ func (*queueClass_).Fork
+//@   props C06
+//@   nilok
+//@   requires group != nil && input != nil
+//@   modifies wgcount(group)
+//@   ensures[C06] size >= 2 && fresh(result) && result != nil && len(view(result)) == size && nonnil(view(result)) && allfresh(view(result)) && distinct(view(result))
+//@   ensures[C06] wgcount(group) == old(wgcount(group)) + 1
+//@   xensures[C06] size < 2 && wgcount(group) == old(wgcount(group))
+//@   loop 1:
+//@     invariant 0 <= i && i <= size && outputs != nil && fresh(outputs) && len(view(outputs)) == i
+//@     invariant nonnil(view(outputs)) && allfresh(view(outputs)) && distinct(view(outputs)) && unchanged(view)
+//@     decreases size - i
+
+// the helper goroutine of Fork: every output receives exactly what was taken from the input, in order;
+// at the end every output is closed and the wait group is decremented (also on a panic: deferred)
+//@ func (*queueClass_).Fork$1
+//@   props C06
+//@   requires group != nil && outputs != nil && input != nil
+//@   requires nonnil(view(outputs)) && distinct(view(outputs)) && allallocated(view(outputs))
+//@   let outs := view(outputs)
+//@   let inp := input
+//@   let wg := group
+//@   modifies wgcount(wg), got(inp), region(put), region(qclosed), region(view)
+//@   ensures[C06] forall j :: 0 <= j && j < len(outs) ==> put(outs[j]) == old(put(outs[j])) ++ delivered(inp)
+//@   ensures[C06] forall j :: 0 <= j && j < len(outs) ==> qclosed(outs[j])
+//@   ensures[C06] wgcount(wg) == old(wgcount(wg)) - 1
+//@   xensures[C06] wgcount(wg) == old(wgcount(wg)) - 1
+//@   loop 1:
+//@     invariant snap(iterator) == outs && input == inp && group == wg && 0 <= pos(iterator) && pos(iterator) <= len(outs) && len(old(got(inp))) <= len(got(inp))
+//@     invariant forall j :: 0 <= j && j < len(outs) ==> put(outs[j]) == old(put(outs[j])) ++ delivered(inp)
+//@     invariant wgcount(wg) == old(wgcount(wg)) && unchanged(got, inp)
+//@     decreases *
+//@   loop 2:
+//@     invariant snap(iterator) == outs && input == inp && group == wg && 0 <= pos(iterator) && pos(iterator) <= len(outs) && ok
+//@     invariant len(old(got(inp))) < len(got(inp)) && got(inp)[len(got(inp)) - 1] == value
+//@     invariant forall j :: 0 <= j && j < pos(iterator) ==> put(outs[j]) == old(put(outs[j])) ++ delivered(inp)
+//@     invariant forall j :: pos(iterator) <= j && j < len(outs) ==> put(outs[j]) ++ single(value) == old(put(outs[j])) ++ delivered(inp)
+//@     invariant wgcount(wg) == old(wgcount(wg)) && unchanged(got, inp)
+//@     decreases len(outs) - pos(iterator)
+//@   loop 3:
+//@     invariant snap(iterator) == outs && group == wg && 0 <= pos(iterator) && pos(iterator) <= len(outs)
+//@     invariant forall j :: 0 <= j && j < len(outs) ==> put(outs[j]) == old(put(outs[j])) ++ delivered(inp)
+//@     invariant forall j :: 0 <= j && j < pos(iterator) ==> qclosed(outs[j])
+//@     invariant wgcount(wg) == old(wgcount(wg)) && unchanged(got, inp)
+//@     decreases len(outs) - pos(iterator)
+
+// round-robin bookkeeping (definitions by primitive recursion on the first argument):
+// rr(i, n): the queue that the i-th value of a round-robin pass over n queues goes to / comes from
+// rcount(k, j, n): how many of the first k values belong to queue j
+//@ declare rr(Int, Int) Int
+//@ declare rcount(Int, Int, Int) Int
+//@ axiom rr_zero: forall n Int :: { rr(0, n) } rr(0, n) == 0
+//@ axiom rr_step: forall i Int, i1 Int, n Int :: { rr(i1, n), rr(i, n) } i1 == i + 1 && i >= 0 ==> rr(i1, n) == ite(rr(i, n) + 1 >= n, 0, rr(i, n) + 1)
+//@ axiom rcount_zero: forall j Int, n Int :: { rcount(0, j, n) } rcount(0, j, n) == 0
+//@ axiom rcount_step: forall k Int, k1 Int, j Int, n Int :: { rcount(k1, j, n), rcount(k, j, n) } k1 == k + 1 && k >= 0 ==> rcount(k1, j, n) == rcount(k, j, n) + ite(rr(k, n) == j, 1, 0)
+//@ axiom[private] rr_unfold: forall i Int, n Int :: { rr(i, n) } i >= 1 ==> rr(i, n) == ite(rr(i - 1, n) + 1 >= n, 0, rr(i - 1, n) + 1)
+//@ axiom[private] rcount_unfold: forall k Int, j Int, n Int :: { rcount(k, j, n) } k >= 1 ==> rcount(k, j, n) == rcount(k - 1, j, n) + ite(rr(k - 1, n) == j, 1, 0)
+// what the definitions mean: rr is i mod n, every value belongs to exactly one queue slot (no loss, no duplication)
+//@ lemma[C06] rr_range uses rr_unfold measure ite(i > 0, i, 0): forall i Int, n Int :: { rr(i, n) } i >= 0 && n >= 1 ==> 0 <= rr(i, n) && rr(i, n) < n
+// (rr(i, n) == i % n for n >= 1 is proved in Lean: /verif/engine/lemmas/C06.rr_is_mod.lean, thorough tier; nothing depends on it)
+//@ lemma[C06] rcount_mono uses rcount_unfold measure ite(b > a, b - a, 0): forall a Int, b Int, j Int, n Int :: { rcount(a, j, n), rcount(b, j, n) } 0 <= a && a <= b ==> rcount(a, j, n) <= rcount(b, j, n)
+//@ lemma[C06] rcount_nonneg uses rcount_mono: forall k Int, j Int, n Int :: { rcount(k, j, n) } k >= 0 ==> rcount(k, j, n) >= 0
+//@ lemma[C06] rcount_slots_distinct uses rcount_mono: forall a Int, b Int, n Int, b1 Int :: { rcount(a, rr(a, n), n), rcount(b, rr(b, n), n), rcount(b1, rr(a, n), n) } 0 <= a && a < b && b1 == a + 1 && rr(a, n) == rr(b, n) ==> rcount(b1, rr(a, n), n) == rcount(a, rr(a, n), n) + 1 && rcount(a, rr(a, n), n) < rcount(b, rr(b, n), n)
+// composition (over the helper contracts and the FIFO contract of the intermediate queues): if the i-th value D[i]
+// is the rcount(i, rr(i))-th element of queue rr(i)'s history, and Join's i-th output P[i] is that same element, P == D
+//@ declare qhist(U, Int) Seq
+//@ lemma[C06] split_then_join: forall h U, d Seq, p Seq, n Int :: { qhist(h, n), len(d), len(p) } n >= 1 && len(d) == len(p) && (forall i :: { d[i] } 0 <= i && i < len(d) ==> qhist(h, rr(i, n))[rcount(i, rr(i, n), n)] == d[i]) && (forall i :: { p[i] } 0 <= i && i < len(p) ==> qhist(h, rr(i, n))[rcount(i, rr(i, n), n)] == p[i]) ==> p == d
+
+//@ func (*queueClass_).Split
+//@   props C06
+//@   nilok
+//@   requires group != nil && input != nil
+//@   modifies wgcount(group)
+//@   ensures[C06] size >= 2 && fresh(result) && result != nil && len(view(result)) == size && nonnil(view(result)) && allfresh(view(result)) && distinct(view(result))
+//@   ensures[C06] wgcount(group) == old(wgcount(group)) + 1
+//@   xensures[C06] size < 2 && wgcount(group) == old(wgcount(group))
+//@   loop 1:
+//@     invariant 0 <= i && i <= size && outputs != nil && fresh(outputs) && len(view(outputs)) == i
+//@     invariant nonnil(view(outputs)) && allfresh(view(outputs)) && distinct(view(outputs)) && unchanged(view)
+//@     decreases size - i
+
+// the helper goroutine of Split: the i-th value taken from the input is the rcount(i, rr(i, n), n)-th value
+// appended to output rr(i, n), and nothing else is appended anywhere
+//@ func (*queueClass_).Split$1
+//@   props C06
+//@   requires group != nil && outputs != nil && input != nil && len(view(outputs)) >= 1
+//@   requires nonnil(view(outputs)) && distinct(view(outputs)) && allallocated(view(outputs))
+//@   let outs := view(outputs)
+//@   let n := len(view(outputs))
+//@   let inp := input
+//@   let wg := group
+//@   let g0 := len(old(got(input)))
+//@   modifies wgcount(wg), got(inp), region(put), region(qclosed), region(view)
+//@   ensures[C06] forall j :: { outs[j] } 0 <= j && j < n ==> len(put(outs[j])) == len(old(put(outs[j]))) + rcount(len(got(inp)) - g0, j, n) && put(outs[j])[0 : len(old(put(outs[j])))] == old(put(outs[j]))
+//@   ensures[C06] forall i :: { rr(i, n) } 0 <= i && i < len(got(inp)) - g0 ==> 0 <= rr(i, n) && rr(i, n) < n && put(outs[rr(i, n)])[len(old(put(outs[rr(i, n)]))) + rcount(i, rr(i, n), n)] == got(inp)[g0 + i]
+//@   ensures[C06] forall j :: { outs[j] } 0 <= j && j < n ==> qclosed(outs[j])
+//@   ensures[C06] wgcount(wg) == old(wgcount(wg)) - 1
+//@   xensures[C06] wgcount(wg) == old(wgcount(wg)) - 1
+//@   loop 1:
+//@     invariant snap(iterator) == outs && input == inp && group == wg && g0 <= len(got(inp)) && pos(iterator) == rr(len(got(inp)) - g0, n) && 0 <= pos(iterator) && pos(iterator) < n
+//@     invariant forall j :: { outs[j] } 0 <= j && j < n ==> len(put(outs[j])) == len(old(put(outs[j]))) + rcount(len(got(inp)) - g0, j, n) && rcount(len(got(inp)) - g0, j, n) >= 0
+//@     invariant forall j :: { outs[j] } 0 <= j && j < n ==> put(outs[j])[0 : len(old(put(outs[j])))] == old(put(outs[j]))
+//@     invariant forall i :: { rr(i, n) } 0 <= i && i < len(got(inp)) - g0 ==> 0 <= rr(i, n) && rr(i, n) < n && rcount(i, rr(i, n), n) < rcount(len(got(inp)) - g0, rr(i, n), n) && 0 <= rcount(i, rr(i, n), n)
+//@     invariant forall i :: { rr(i, n) } 0 <= i && i < len(got(inp)) - g0 ==> put(outs[rr(i, n)])[len(old(put(outs[rr(i, n)]))) + rcount(i, rr(i, n), n)] == got(inp)[g0 + i]
+//@     invariant wgcount(wg) == old(wgcount(wg)) && unchanged(got, inp)
+//@     decreases *
+//@   loop 2:
+//@     invariant snap(iterator) == outs && group == wg && 0 <= pos(iterator) && pos(iterator) <= n
+//@     invariant forall j :: { outs[j] } 0 <= j && j < n ==> len(put(outs[j])) == len(old(put(outs[j]))) + rcount(len(got(inp)) - g0, j, n) && rcount(len(got(inp)) - g0, j, n) >= 0
+//@     invariant forall j :: { outs[j] } 0 <= j && j < n ==> put(outs[j])[0 : len(old(put(outs[j])))] == old(put(outs[j]))
+//@     invariant forall i :: { rr(i, n) } 0 <= i && i < len(got(inp)) - g0 ==> 0 <= rr(i, n) && rr(i, n) < n && put(outs[rr(i, n)])[len(old(put(outs[rr(i, n)]))) + rcount(i, rr(i, n), n)] == got(inp)[g0 + i]
+//@     invariant forall j :: { outs[j] } 0 <= j && j < pos(iterator) ==> qclosed(outs[j])
+//@     invariant wgcount(wg) == old(wgcount(wg)) && unchanged(got, inp)
+//@     decreases n - pos(iterator)
+
+// Join requires distinct, non-nil input queues (what Split and Fork return); on other arguments nothing is claimed
+//@ func (*queueClass_).Join
+//@   props C06
+//@   nilok
+//@   requires group != nil
+//@   requires inputs != nil ==> nonnil(view(inputs)) && distinct(view(inputs)) && allallocated(view(inputs))
+//@   modifies wgcount(group)
+//@   ensures[C06] inputs != nil && len(view(inputs)) >= 1 && fresh(result) && result != nil && view(result) == empty() && capacity(result) == capacity(view(inputs)[0])
+//@   ensures[C06] wgcount(group) == old(wgcount(group)) + 1
+//@   xensures[C06] wgcount(group) == old(wgcount(group))
+
+// the helper goroutine of Join: the i-th value appended to the output is the rcount(i, rr(i, n), n)-th value
+// taken from input rr(i, n); nothing else is appended or taken; the output is closed at the end
+//@ func (*queueClass_).Join$1
+//@   props C06
+//@   requires group != nil && iterator != nil && output != nil && len(snap(iterator)) >= 1
+//@   requires nonnil(snap(iterator)) && distinct(snap(iterator)) && allallocated(snap(iterator)) && allocated(output)
+//@   requires forall j :: { snap(iterator)[j] } 0 <= j && j < len(snap(iterator)) ==> snap(iterator)[j] != output
+//@   let ins := snap(iterator)
+//@   let n := len(snap(iterator))
+//@   let out := output
+//@   let wg := group
+//@   let it := iterator
+//@   let p0 := len(old(put(output)))
+//@   modifies wgcount(wg), put(out), qclosed(out), region(got), region(view), pos(it)
+//@   ensures[C06] put(out)[0 : p0] == old(put(out)) && p0 <= len(put(out))
+//@   ensures[C06] forall j :: { ins[j] } 0 <= j && j < n ==> len(got(ins[j])) == len(old(got(ins[j]))) + rcount(len(put(out)) - p0, j, n) && got(ins[j])[0 : len(old(got(ins[j])))] == old(got(ins[j]))
+//@   ensures[C06] forall i :: { rr(i, n) } 0 <= i && i < len(put(out)) - p0 ==> 0 <= rr(i, n) && rr(i, n) < n && got(ins[rr(i, n)])[len(old(got(ins[rr(i, n)]))) + rcount(i, rr(i, n), n)] == put(out)[p0 + i]
+//@   ensures[C06] qclosed(out)
+//@   ensures[C06] wgcount(wg) == old(wgcount(wg)) - 1
+//@   xensures[C06] wgcount(wg) == old(wgcount(wg)) - 1
+//@   loop 1:
+//@     invariant iterator == it && snap(it) == ins && output == out && group == wg && p0 <= len(put(out)) && pos(it) == rr(len(put(out)) - p0, n) && 0 <= pos(it) && pos(it) < n
+//@     invariant put(out)[0 : p0] == old(put(out))
+//@     invariant forall j :: { ins[j] } 0 <= j && j < n ==> len(got(ins[j])) == len(old(got(ins[j]))) + rcount(len(put(out)) - p0, j, n) && rcount(len(put(out)) - p0, j, n) >= 0
+//@     invariant forall j :: { ins[j] } 0 <= j && j < n ==> got(ins[j])[0 : len(old(got(ins[j])))] == old(got(ins[j]))
+//@     invariant forall i :: { rr(i, n) } 0 <= i && i < len(put(out)) - p0 ==> 0 <= rr(i, n) && rr(i, n) < n && rcount(i, rr(i, n), n) < rcount(len(put(out)) - p0, rr(i, n), n) && 0 <= rcount(i, rr(i, n), n)
+//@     invariant forall i :: { rr(i, n) } 0 <= i && i < len(put(out)) - p0 ==> got(ins[rr(i, n)])[len(old(got(ins[rr(i, n)]))) + rcount(i, rr(i, n), n)] == put(out)[p0 + i]
+//@     invariant wgcount(wg) == old(wgcount(wg)) && unchanged(put, out) && unchanged(qclosed, out) && unchanged(pos, it)
+//@     decreases *
